@@ -383,6 +383,14 @@ pub fn run() -> Report {
             }
             // options that have nothing to do with the content of the dump: every third case at another verbosity
             spec.verbosity = [0u8, 0, 3][i % 3];
+            spec.env.push(("VERIF_PATH_FORM".into(), ((i / 3) % 9).to_string()));
+            // ... and the passage of time is an input too: every fourth case under a virtual monotonic clock (a status
+            // line falls due after every block, after every tenth, never; a machine suspended for an hour between blocks)
+            if i % 4 == 1 {
+                let step = ["11000000000", "3600000000000", "1000000000", "0"][(i / 4) % 4];
+                spec.env.push(("VERIF_CLOCK_STEP".into(), step.into()));
+                acc.count(&format!("virtual-clock-step-ns:{}", step), 1);
+            }
             if let Err(m) = wk.materialise(&world) {
                 acc.machinery(m);
                 return;
